@@ -1,7 +1,8 @@
 """C17 - class diagrams mirror the Python classes and derived views leave them intact.
 
 IR: {"model": model IR (kverif/modelir.py), "subset": [class indexes in the order handed to ClassDiagram],
-     "ops": [["sub", include_field_name] | ["associations"] | ["inheritance"] | ["out_edges", i] | ["neighbors", i]]}
+     "ops": [["sub", include_field_name] | ["associations"] | ["inheritance"] | ["out_edges", i] | ["neighbors", i]
+             | ["sub_read_then_source", include_field_name, i]]}
 """
 from __future__ import annotations
 
@@ -14,18 +15,19 @@ from .. import modelir as MI
 from ..core import Check, Outcome, crash, fail
 
 
-def snapshot(diagram):
+def edge_key(e):
     from krrood.class_diagrams.class_diagram import Association, Inheritance
 
+    if isinstance(e, Inheritance):
+        return ("inherits", e.source.clazz.__name__, e.target.clazz.__name__, "")
+    if isinstance(e, Association):
+        return ("assoc", e.source.clazz.__name__, e.target.clazz.__name__, e.field.field.name)
+    return (type(e).__name__, e.source.clazz.__name__, e.target.clazz.__name__, "")
+
+
+def snapshot(diagram):
     nodes = sorted(w.clazz.__name__ for w in diagram.wrapped_classes)
-    edges = Counter()
-    for e in diagram._dependency_graph.edges():
-        if isinstance(e, Inheritance):
-            edges[("inherits", e.source.clazz.__name__, e.target.clazz.__name__, "")] += 1
-        elif isinstance(e, Association):
-            edges[("assoc", e.source.clazz.__name__, e.target.clazz.__name__, e.field.field.name)] += 1
-        else:
-            edges[(type(e).__name__, e.source.clazz.__name__, e.target.clazz.__name__, "")] += 1
+    edges = Counter(edge_key(e) for e in diagram._dependency_graph.edges())
     return nodes, edges
 
 
@@ -34,21 +36,21 @@ class C17(Check):
     title = "Class diagrams mirror the Python classes and derived views leave them intact"
     rule = (
         "Hypothesis draws a model of 1-6 dataclasses over the annotation grammar (T, Optional[T], List/Set/Sequence"
-        "[T], Type[T], enum, datetime, classes outside the diagram; all annotations are forward references by "
-        "string; multi-level inheritance with inherited association fields; underscore fields), a non-empty subset "
+        "[T], Type[T], enum, datetime, classes outside the diagram; the module either uses the future import - all "
+        "annotations are strings - or evaluates its annotations with quoted class references inside the typing "
+        "wrappers; multi-level inheritance with inherited association fields; underscore fields), a non-empty subset "
         "in any order handed to ClassDiagram, and a sequence of read-only operations (sub-diagram without "
         "inherited associations with/without field names, association/inheritance listings, out-edge and "
-        "neighbour queries). Oracle: an independent reading of the model IR: one node per class, inheritance edges "
+        "neighbour queries on the diagram, and reading a derived view before asking the source about the same class). Oracle: an independent reading of the model IR: one node per class, inheritance edges "
         "= direct-base pairs in the subset, association edges = public own and inherited fields whose endpoint is a "
         "class of the subset, per-field classification; the snapshot of nodes and labelled edges must be equal "
-        "before and after every operation, and the sub-diagram must be the diagram minus the association edges "
+        "before and after every operation, the out-edges reported for a class must be its edges in the snapshot, and the sub-diagram must be the diagram minus the association edges "
         "whose key an ancestor defines. Non-trivial: the model has an inherited association and the subset has >= 2 "
         "classes. Distinct = distinct IR."
     )
     assumptions = [
         "for Type[T] fields the presence of an association edge is not asserted either way (the statement lists type-valued fields as a separate kind)",
         "one-to-one / one-to-many are asserted only where the annotation is unambiguous (dataclass endpoint => true, builtin endpoint => false)",
-        "the generated module uses `from __future__ import annotations`, i.e. every annotation is a forward reference",
     ]
     budget = {
         "quick": dict(examples=250, shards=16, seconds=75),
@@ -59,6 +61,7 @@ class C17(Check):
         @st.composite
         def ir(draw):
             model = draw(MI.model_ir(max_classes=6, grammar="diagram"))
+            model["future"] = draw(st.booleans())
             n = len(model["classes"])
             k = draw(st.integers(1, n)) if draw(st.sampled_from([0, 0, 1])) else n
             subset = model["order"][:k]
@@ -66,6 +69,7 @@ class C17(Check):
                 st.tuples(st.just("sub"), st.booleans()), st.tuples(st.just("sub"), st.booleans()),
                 st.tuples(st.just("associations")), st.tuples(st.just("inheritance")),
                 st.tuples(st.just("out_edges"), st.integers(0, 5)), st.tuples(st.just("neighbors"), st.integers(0, 5)),
+                st.tuples(st.just("sub_read_then_source"), st.booleans(), st.integers(0, 5)),
             ).map(list)
             return {"model": model, "subset": subset, "ops": draw(st.lists(op, min_size=1, max_size=6))}
 
@@ -100,7 +104,8 @@ class C17(Check):
                     if f["name"] not in own:
                         inherited_assoc = True
         classes_ = [f"classes{min(len(subset), 4)}"] + (["inherited_association"] if inherited_assoc else []) + (
-            ["proper_subset"] if len(subset) < len(names) else []) + sorted({"field_" + f["t"]["k"] for c in model["classes"] for f in c["fields"]})
+            ["proper_subset"] if len(subset) < len(names) else []) + (
+            ["annotations_as_strings"] if model.get("future", True) else ["evaluated_annotations_with_quoted_references"]) + sorted({"field_" + f["t"]["k"] for c in model["classes"] for f in c["fields"]})
         nontrivial = inherited_assoc and len(subset) >= 2
 
         def bad(kind, msg):
@@ -193,8 +198,18 @@ class C17(Check):
                         list(diagram.associations)
                     elif op[0] == "inheritance":
                         list(diagram.inheritance_relations)
-                    elif op[0] == "out_edges":
-                        diagram.get_out_edges(clss[subset[op[1] % len(subset)]])
+                    elif op[0] in ("out_edges", "sub_read_then_source"):
+                        c = clss[subset[op[-1] % len(subset)]]
+                        if op[0] == "sub_read_then_source":
+                            # the derived view is read first, the source is asked afterwards
+                            sub = diagram.to_subdiagram_without_inherited_associations(op[1])
+                            sub.get_out_edges(c)
+                            sub.get_outgoing_neighbors_with_relation_type(c, Association)
+                            list(sub.associations)
+                        got_out = Counter(edge_key(e) for e in diagram.get_out_edges(c))
+                        want_out = Counter({k: v for k, v in edges.items() if k[1] == c.__name__})
+                        if got_out != want_out:
+                            return bad("wrong_out_edges", f"op {n_op} {op}: get_out_edges({c.__name__}) missing={sorted(want_out - got_out)} extra={sorted(got_out - want_out)}")
                     elif op[0] == "neighbors":
                         c = clss[subset[op[1] % len(subset)]]
                         diagram.get_neighbors_with_relation_type(c, Association)
